@@ -126,7 +126,11 @@ func runXfer(src fsutil.FS, dest string, o xferOpts, log *evLog) *xferResult {
 			if o.holdHasher > 0 && os.FileMode(st.Mode)&os.ModeType == 0 && st.Linkname == "" && atomic.CompareAndSwapInt32(&res.held, 0, 1) {
 				// a slow user callback: the first file's hasher returns only after many later requests have been handed to the
 				// stream (its own request then arrives long after requests for much higher ids)
-				for t0 := time.Now(); int(atomic.LoadInt32(&log.reqs)) < o.holdHasher && time.Since(t0) < 3*time.Second; {
+				limit := 3 * time.Second
+				if o.holdHasher < 50 {
+					limit = 300 * time.Millisecond
+				}
+				for t0 := time.Now(); int(atomic.LoadInt32(&log.reqs)) < o.holdHasher && time.Since(t0) < limit; {
 					time.Sleep(time.Millisecond)
 				}
 			}
